@@ -118,6 +118,9 @@ def parse_module(path):
             pending.mem = int(kv.get("mem", "16"))
             pending.known = [f for f in kv.get("known", "").split(",") if f]
             cur = pending
+        elif s.startswith("//@-unregistered"):
+            cur = None
+            pending = None
         elif s.startswith("//@ fn") and pending is not None:
             pending.fns.append(s[len("//@ fn"):].strip())
         elif pending is not None and pending.name is None:
